@@ -108,6 +108,11 @@ def validate(text, ndigits=3, allow_text=False, require_stops=False):
                     for a, v in g.attrib.items():
                         if a in GRAD_NUM and not _NUM.match(v.strip()):
                             bad.append(f"gradient {g.get('id')} has non-numeric {a}={v!r}")
+                        if a == "gradientTransform":
+                            # a transform list over numbers of the SVG number grammar ("inf" and "nan" are not numbers)
+                            inner = re.sub(r"[A-Za-z]+\s*\(", " ", v).replace(")", " ").replace(",", " ").split()
+                            if not inner or any(not _NUM.match(tok) for tok in inner):
+                                bad.append(f"gradient {g.get('id')} has a gradientTransform with non-numeric arguments: {v!r}")
                     for st in g:
                         if st.tag in (ET.Comment, ET.ProcessingInstruction):
                             continue
